@@ -24,7 +24,7 @@ EXPLANATION = (
     'compute_full is run on symbolic N and its recorded frames are compared with the documented frame count and '
     'symmetric-reflection coverage; the energy/log/power dataflow is decided as term equalities with symbolic flags.')
 BOUNDS = {
-    'quick': 'pairing: D in 2..17 and {32, 64}, any start bin 0<=start<D and 1<=len<=D (complex) / start+len<=D//2+1 (real); '
+    'quick': 'pairing: D in 2..17 and {32, 64} with the frame lengths the constructor yields (L = D; D - 1 under padding), any start bin 0<=start<D and 1<=len<=D (complex) / start+len<=D//2+1 (real); '
              'coverage: (L,S) grid as C01, N <= 3L; dataflow: all flag combinations (symbolic booleans)',
     'thorough': 'pairing: D in 2..40 and {64,127,128,255,256,512}; coverage: L<=9 grid, N <= 4L',
 }
